@@ -1,5 +1,80 @@
-import Tahoe.Sftp.Consumer
+import Tahoe.Sftp.LemmasMain
+/-! C39 — SFTP writes are never lost to the background download (property theorems; the model is
+`Tahoe/Sftp/Consumer.lean`, the invariant and the notion of an allowed history are in
+`Tahoe/Sftp/Inv.lean`, helper lemmas in `Tahoe/Sftp/Lemmas*.lean`).
+
+`Variant.fixed` is `OverwriteableFileConsumer` with fixes/C39-overwrite-merge.diff (`end = max(end, end1)`
+in the merge loop of `write`); `Variant.asIs` is the code as it is, for which the property is false.
+
+A history is *allowed* (`WF`) when the client obeys the contract in `read`'s docstring (no overwrite
+or size change while a read's Deferred is unfired, none after `close`) and `download_done(bytes)`
+arrives only after the producer delivered the whole original (the wiring in `GeneralSFTPFile.open`).
+Download chunks of any sizes, eventual-queue turns, reads, a failing download and `close` may be
+interleaved in any order. -/
 namespace Tahoe.C39
 open Tahoe.Sftp
-theorem placeholder : True := trivial
+
+/-- For every original file, every allowed history (any chunking of the download, any interleaving
+with client writes, truncations, extensions, reads, queue turns) and every point of that history:
+every read that completes there returns exactly the reference bytes `ref[off .. off+len)`, an
+`EOFError` is only raised at or beyond the reference's end, a read fails only if the download failed
+or the file was closed; and as soon as the download is reported done (and until `close`) the
+temporary file — what `GeneralSFTPFile.close` uploads — equals the reference, i.e. the original
+contents with the client's operations applied in order. -/
+theorem refines_reference (orig : Bytes) (es : List Ev) (hwf : WF .fixed orig (init orig) es) :
+    ∀ x ∈ trace .fixed orig (init orig) orig es,
+      (∀ o ∈ x.2.2, (∀ b, o.res = .data b → b = pread x.2.1 o.off o.len)
+                    ∧ (o.res = .eof → x.2.1.length ≤ o.off)
+                    ∧ (o.res = .fail → x.1.done = .failed ∨ x.1.closed = true))
+      ∧ (x.1.done = .ok → x.1.closed = false → x.1.f = x.2.1) := by
+  intro x hx
+  have := trace_inv orig es (init orig) orig (init_inv orig) hwf x hx
+  exact ⟨this.2, final_eq orig x.2.1 x.1 this.1⟩
+
+/-- the same for the end of the history, in terms of `run` and `refRun` -/
+theorem final_file_is_reference (orig : Bytes) (es : List Ev) (hwf : WF .fixed orig (init orig) es)
+    (hd : (run .fixed orig (init orig) es).1.done = .ok) (hc : (run .fixed orig (init orig) es).1.closed = false) :
+    (run .fixed orig (init orig) es).1.f = refRun orig es :=
+  final_eq orig _ _ (run_inv orig es (init orig) orig (init_inv orig) hwf) hd hc
+
+/-- between the issue of a read and its completion the reference does not move (so "the reference
+when the read completes" above is also "the reference when the read was issued") -/
+theorem reference_frozen_while_read_pending (orig ref : Bytes) (s : St) (e : Ev)
+    (hal : allowed orig s e) (hp : s.ms ≠ [] ∨ s.queue ≠ []) : refStep ref e = ref := by
+  cases e <;> simp only [refStep]
+  · exact absurd hal.2 (by rcases hp with a | a <;> simp [a])
+  · exact absurd hal.2 (by rcases hp with a | a <;> simp [a])
+
+/-- DESIGN §3 probe, as a history: overwrite [0,10), overwrite [2,5), then the download in one chunk -/
+def probe : List Ev :=
+  [.overwrite 0 [120, 120, 120, 120, 120, 120, 120, 120, 120, 120], .overwrite 2 [121, 121, 121], .chunk 20,
+   .done true, .read 4 8, .flush]
+
+def probeOrig : Bytes := [65, 66, 67, 68, 69, 70, 71, 72, 73, 74, 75, 76, 77, 78, 79, 80, 81, 82, 83, 84]
+
+/-- the code as it is loses a client write: the probe history is allowed, the download is done, and
+the temporary file differs from the reference (bytes 5..9 hold downloaded data) -/
+theorem asIs_clobbers_client_write_counterexample :
+    WF .asIs probeOrig (init probeOrig) probe
+    ∧ (run .asIs probeOrig (init probeOrig) probe).1.done = .ok
+    ∧ (run .asIs probeOrig (init probeOrig) probe).1.f ≠ refRun probeOrig probe
+    ∧ (run .asIs probeOrig (init probeOrig) probe).1.f
+        = [120, 120, 121, 121, 121, 70, 71, 72, 73, 74, 75, 76, 77, 78, 79, 80, 81, 82, 83, 84] := by
+  decide
+
+/-- non-vacuity: the same history is allowed for the repaired code, completes a read and finishes -/
+example : WF .fixed probeOrig (init probeOrig) probe
+    ∧ (run .fixed probeOrig (init probeOrig) probe).1.done = .ok
+    ∧ (run .fixed probeOrig (init probeOrig) probe).2 = [⟨0, 4, 8, .data [121, 120, 120, 120, 120, 120, 75, 76]⟩]
+    ∧ (run .fixed probeOrig (init probeOrig) probe).1.f
+        = [120, 120, 121, 121, 121, 120, 120, 120, 120, 120, 75, 76, 77, 78, 79, 80, 81, 82, 83, 84] := by
+  decide
+
+/-- non-vacuity with a pending read: truncate, extend, read across the hole while chunks arrive -/
+example : let h : List Ev := [.overwrite 3 [200, 201], .setSize 4, .setSize 9, .read 0 9, .chunk 2, .flush, .chunk 5,
+                              .flush, .done true]
+    WF .fixed [1, 2, 3, 4, 5, 6, 7] (init [1, 2, 3, 4, 5, 6, 7]) h
+    ∧ (run .fixed [1, 2, 3, 4, 5, 6, 7] (init [1, 2, 3, 4, 5, 6, 7]) h).2 = [⟨0, 0, 9, .data [1, 2, 3, 200, 0, 0, 0, 0, 0]⟩] := by
+  decide
+
 end Tahoe.C39
